@@ -47,6 +47,8 @@ func (p *UnsafePool) get(v Value) *weakRef {
 	id := w.id()
 	r := p.weakrefs[id]
 	if r == nil {
+		// The value may already have a Go finalizer, set by another pool.
+		setFinalizer(v, nil)
 		setFinalizer(v, p.goFinalizer)
 		r = &weakRef{
 			w:    w,
